@@ -121,3 +121,37 @@ MUTANTS += [
     dict(name="revert_fix_pcovr_1d_precomputed", prop=["C03", "C14"], file=PCV,
          old="            Yhat = Y.copy().reshape(X.shape[0], -1)", new="            Yhat = Y.copy()"),
 ]
+
+MUTANTS += [
+    # ---------------------------------------------------------------- C14
+    dict(name="c14_ptx_sqrt_exchanged", prop=["C14", "C03"], file=PCV,
+         old="        self.ptx_ = np.linalg.multi_dot([S_sqrt_inv, Vt, Csqrt])", new="        self.ptx_ = np.linalg.multi_dot([S_sqrt, Vt, Csqrt])"),
+    dict(name="c14_pxy_not_reshaped", prop="C14", file=PCV,
+         old="        if len(Y.shape) == 1:\n            self.pxy_ = self.pxy_.reshape(\n                X.shape[1],\n            )", new="        if len(Y.shape) == 1 and X.shape[1] < 0:\n            self.pxy_ = self.pxy_.reshape(\n                X.shape[1],\n            )"),
+    dict(name="c14_pty_from_yhat_feature", prop="C03", file=PCV,
+         old="        self.pty_ = np.linalg.multi_dot([S_sqrt_inv, Vt, iCsqrt, X.T, Y])", new="        self.pty_ = np.linalg.multi_dot([S_sqrt_inv, Vt, iCsqrt, X.T, Yhat])"),
+    dict(name="c14_sample_T_unnormalised", prop=["C14", "C03"], file=PCV,
+         old="        T = Vt.T @ S_sqrt_inv\n", new="        T = Vt.T @ S_sqrt_inv @ S_sqrt_inv\n"),
+    dict(name="c14_transform_skips_last_component", prop="C14", file=PCV,
+         old="        self.components_ = self.pxt_.T  # for sklearn compatibility", new="        self.components_ = self.pxt_.T.copy()  # for sklearn compatibility\n        if self.n_components_ > 2:\n            self.components_[-1] *= 0.999"),
+    dict(name="c14_score_uses_unrelative_y", prop="C14", file=PCV,
+         old="            + np.linalg.norm(Y - y) ** 2.0 / np.linalg.norm(Y) ** 2.0", new="            + np.linalg.norm(Y - y) ** 2.0 / np.linalg.norm(y) ** 2.0"),
+    dict(name="c14_tol_cut_relative_bug", prop=["C14", "C03"], file=PCV, count=1,
+         old="        S_sqrt_inv = np.diagflat([1.0 / np.sqrt(s) if s > self.tol else 0.0 for s in S])\n        T = Vt.T @ S_sqrt_inv",
+         new="        S_sqrt_inv = np.diagflat([1.0 / np.sqrt(s) if s > 1e-3 else 0.0 for s in S])\n        T = Vt.T @ S_sqrt_inv"),
+]
+
+MUTANTS += [
+    # ---------------------------------------------------------------- C04
+    dict(name="revert_fix_pcovr_relative_cut", prop="C04", file=PCV, count=2,
+         old="        S_tol = self.tol * max(1.0, np.max(S))", new="        S_tol = self.tol"),
+    dict(name="c04_mixing_swapped_in_cov", prop=["C04", "C03"], file=PU,
+         old="        C += (mixing) * (X.T @ X)", new="        C += (1 - mixing) * (X.T @ X)"),
+    dict(name="c04_bottom_k_components", prop="C04", file=PCV,
+         old="        return (\n            U[:, : self.n_components_],\n            S[: self.n_components_],\n            Vt[: self.n_components_],\n        )",
+         new="        if self.mixing == 0.625:\n            return U[:, -self.n_components_ :], S[-self.n_components_ :], Vt[-self.n_components_ :]\n        return (\n            U[:, : self.n_components_],\n            S[: self.n_components_],\n            Vt[: self.n_components_],\n        )"),
+    dict(name="c04_kernel_mixing_squared", prop=["C04", "C03"], file=PU,
+         old='            K += (mixing) * X @ X.T\n        elif kernel_params.get("kernel") != "precomputed":', new='            K += (mixing**2) * X @ X.T\n        elif kernel_params.get("kernel") != "precomputed":'),
+    dict(name="c04_feature_space_Y_for_Yhat", prop=["C04", "C03"], file=PCV,
+         old="            self._fit_feature_space(X, Y.reshape(Yhat.shape), Yhat)", new="            self._fit_feature_space(X, Y.reshape(Yhat.shape), Y.reshape(Yhat.shape))"),
+]
